@@ -155,6 +155,14 @@ def method_surface(H, cls):
         out.append(("dual", lambda: H.dual()))
     if cls == "H":
         out.append(("lshift", lambda: H << H.copy()))
+
+        def lshift_other():
+            K = xgi.Hypergraph()
+            for n in nodes[:2]:
+                K.add_node(n, color=99, extra=[1])
+            K.add_edge(nodes[:2] + ["__other__"], tag=1)
+            return H << K
+        out.append(("lshift(other network sharing nodes)", lshift_other))
         out.append(("cleanup(in_place=False)", lambda: H.cleanup(in_place=False)))
         out.append(("cleanup(in_place=False,multiedges=True,connected=False)",
                     lambda: H.cleanup(in_place=False, multiedges=True, connected=False)))
@@ -226,6 +234,15 @@ def _worker(args):
                 cands = recipe(name, H, cls, tmpdir)
             except Exception:  # noqa: BLE001
                 cands = [((), {})]
+            # every boolean option flipped on its own (in_place excepted: that is the documented mutating mode)
+            try:
+                for pn, pp in inspect.signature(f).parameters.items():
+                    if isinstance(pp.default, bool) and pn != "in_place":
+                        base_a, base_kw = cands[0]
+                        if pn not in base_kw:
+                            cands = cands + [(base_a, dict(base_kw, **{pn: not pp.default}))]
+            except (TypeError, ValueError):
+                pass
             for ci, (a, kw) in enumerate(cands):
                 arg0 = {"k": H} if name == "write_hif_collection" else H
                 calls.append((f"xgi.{name}#{ci}", lambda f=f, a=a, kw=kw, arg0=arg0: f(arg0, *a, **kw)))
